@@ -828,6 +828,31 @@ func (c *Ctx) ruleWorkerServesEveryRequest(idServe, idAlive string) {
 				}
 			}
 		}
+		// two helpers deep (worker → handle(in) → store(publish) → Distribute): the middle one must call the inner one
+		// on every path, then the worker is judged with the middle helper as the arm's body
+		if sel == nil {
+			for _, site := range c.P.StaticCallers(f) {
+				mid := site.Parent()
+				if mid.Parent() != nil {
+					continue
+				}
+				onEveryPath := true
+				for _, rb := range mid.Blocks {
+					if _, isRet := rb.Instrs[len(rb.Instrs)-1].(*ssa.Return); isRet && !site.Block().Dominates(rb) {
+						onEveryPath = false
+					}
+				}
+				if !onEveryPath {
+					continue
+				}
+				for _, site2 := range c.P.StaticCallers(mid) {
+					if s2 := hasSelect(site2.Parent()); s2 != nil {
+						sel, selFn, viaCall = s2, site2.Parent(), site2
+						c.R.Fn(c.fname(mid))
+					}
+				}
+			}
+		}
 		if sel == nil {
 			// the select may sit in a helper that the worker loop calls to get its next request
 			// (for { in, ok := nextRequest(ctx, ch); if !ok { return }; serve(in) })
